@@ -75,7 +75,19 @@ def main():
 
     E = Tensor.from_dok({}, dimensions=(3, 3), format="ds")
 
+    from tensora.compile import TensorMethod
+    from tensora.expression import parse_assignment
+    from tensora.format import parse_format
+    from tensora.problem import Problem
+
+    reordered = TensorMethod(Problem(parse_assignment("y(i) = A(i,j) * x(j)").unwrap(),
+                                     {"A": parse_format("ds").unwrap(), "x": parse_format("d").unwrap(),
+                                      "y": parse_format("s").unwrap()}))
+    reordered._evaluate = Window(reordered._evaluate)
+
     def make(kind):
+        if kind == "reordered":
+            return reordered(A=A, x=x), {(0,): 4.0, (1,): 12.0, (2,): 1.5}
         if kind == "empty":
             return tensora.evaluate("y(i) = A(i,j) * x(j)", "s", A=E, x=x), {}
         if kind == "sparse":
@@ -85,7 +97,7 @@ def main():
         return tensora.evaluate("s() = x(i) * x(i)", "", x=x), {(): 21.0}
 
     def derive(t, kind):
-        if kind == "empty":
+        if kind in ("empty", "reordered"):
             return tensora.evaluate("z(i) = 2 * t(i)", "s", t=t)
         if kind == "scalar":
             return tensora.evaluate("z() = 2 * t()", "", t=t)
@@ -101,7 +113,7 @@ def main():
         return [a for a in out if a]
 
     # warm up the kernels (compilation allocates; keep it out of the histories)
-    for kd in ("sparse", "dense", "scalar", "empty"):
+    for kd in ("sparse", "dense", "scalar", "empty", "reordered"):
         t, _ = make(kd)
         derive(t, kd)
         del t
